@@ -1,6 +1,12 @@
 #!/bin/bash
-# build the Coq library from files on disk (offline); Gen/*.v is regenerated from /repo
+# build the Coq library from files on disk (offline); Gen/*.v is regenerated from /repo.
+# Every check rebuilds its own target (Props/<id>.vo and dependencies) under a lock, so a failure
+# in one property's files must not prevent the others from being built: make -k, exit 0.
 cd "$(dirname "$0")"
-export PYTHONPATH=/repo:/verif PYTHONHASHSEED=0 PYTHONDONTWRITEBYTECODE=1
-if [ -f translator/main.py ]; then /venv/bin/python -m translator.main || echo "translator failed (checks will report)"; fi
-cd coq && coq_makefile -f _CoqProject -o Makefile && timeout 3000 make -j16
+export EPGPY_REPO=${EPGPY_REPO:-/repo}
+export PYTHONPATH=$EPGPY_REPO:/verif PYTHONHASHSEED=0 PYTHONDONTWRITEBYTECODE=1
+/venv/bin/python -m translator.main || echo "translator failed (the checks will report it)"
+cd coq && coq_makefile -f _CoqProject -o Makefile || exit 1
+timeout 3000 make -k -j16 > ../build_setup.log 2>&1 || echo "some files failed to build (see build_setup.log); the checks of the affected properties will report it"
+tail -3 ../build_setup.log
+exit 0
